@@ -223,10 +223,34 @@ def _protected_names() -> Set[str]:
                     tree = ast.parse(open(os.path.join(d, fn), encoding="utf-8").read())
                 except SyntaxError:
                     continue
+                for ch in ast.walk(tree):
+                    for x in ast.iter_child_nodes(ch):
+                        x._p = ch
+                skip = set()
                 for n in ast.walk(tree):
-                    if isinstance(n, ast.Constant) and isinstance(n.value, str) and len(n.value) < 200:
-                        for w in re.findall(r"[A-Za-z_][A-Za-z0-9_]*", n.value):
-                            words.add(w)
+                    if isinstance(n, ast.Call):
+                        fn_ = n.func
+                        nm = fn_.attr if isinstance(fn_, ast.Attribute) else (fn_.id if isinstance(fn_, ast.Name) else "")
+                        if nm in ("rule", "check", "violated", "holds", "undecided", "floor", "AnchorError", "append", "count", "Unknown", "print"):
+                            for a in list(n.args) + [k.value for k in n.keywords]:
+                                for y in ast.walk(a):
+                                    skip.add(id(y))
+                        for k in n.keywords:
+                            if k.arg in ("key_text", "detail", "what", "why"):
+                                for y in ast.walk(k.value):
+                                    skip.add(id(y))
+                    if isinstance(n, ast.JoinedStr):
+                        for y in ast.walk(n):
+                            skip.add(id(y))
+                for n in ast.walk(tree):
+                    if isinstance(n, ast.Constant) and isinstance(n.value, str) and len(n.value) < 120 and id(n) not in skip:
+                        v = n.value.strip()
+                        if "/" in v or re.match(r"^C\d\d", v) or (("-" in v) and "[" not in v and "(" not in v):
+                            continue   # construct names, rule ids, finding keys
+                        codeish = (" " not in v) or (len(v.split()) <= 5 and any(ch in v for ch in "[]()=") and not v.endswith((".", ":")) and "  " not in v)
+                        if codeish:
+                            for w in re.findall(r"[A-Za-z_][A-Za-z0-9_]*", v):
+                                words.add(w)
     return words
 
 
@@ -255,13 +279,13 @@ class Canonicalizer:
         owner = getattr(fn, "_parent", None)
         set_parents(new, owner)
         try:
-            for _ in range(self.max_depth):
-                if not self._inline_round(mod, new, fn):
+            for _ in range(40):
+                if not (self._hoist_round(mod, new, fn) or self._inline_round(mod, new, fn)):
                     break
                 set_parents(new, owner)
             self._module_constants(mod, new)
             set_parents(new, owner)
-            for _ in range(4):
+            for _ in range(60):
                 if not self._copy_propagate(new):
                     break
                 set_parents(new, owner)
@@ -328,6 +352,43 @@ class Canonicalizer:
         if any(isinstance(n, FuncT + (ast.ClassDef,)) for n in _walk_no_nested(h, include_root=False)):
             return None
         return h, body, is_method
+
+    def _hoist_round(self, mod, new: ast.FunctionDef, orig: ast.FunctionDef) -> bool:
+        """a call to an inlinable statement helper nested inside a simple statement is hoisted into `_hN = helper(...)` first"""
+        for st in [n for n in _walk_no_nested(new) if isinstance(n, (ast.Expr, ast.Assign, ast.Return, ast.AugAssign))]:
+            top = st.value if not isinstance(st, ast.AugAssign) else st.value
+            if top is None:
+                continue
+            for call in [n for n in ast.walk(top) if isinstance(n, ast.Call)]:
+                if call is top and isinstance(st, (ast.Expr, ast.Assign)):
+                    continue
+                if call is top and isinstance(st, ast.Return) and st is new.body[-1]:
+                    continue
+                # not under short-circuit / conditional / lambda / comprehension
+                p, ok = getattr(call, "_parent", None), True
+                while p is not None and p is not st:
+                    if isinstance(p, (ast.BoolOp, ast.IfExp, ast.Lambda, ast.ListComp, ast.SetComp, ast.DictComp, ast.GeneratorExp, ast.Yield, ast.YieldFrom)):
+                        ok = False
+                        break
+                    p = getattr(p, "_parent", None)
+                if not ok:
+                    continue
+                res = self._helper_of(mod, orig, new, call)
+                if not res:
+                    continue
+                h, body, is_method = res
+                if _is_generator(h) or (len(body) == 1 and isinstance(body[0], ast.Return)):
+                    continue
+                if not _tail_returns_only(body):
+                    continue
+                k = next(_counter)
+                nm = f"_h{k}"
+                asg = ast.Assign(targets=[ast.Name(id=nm, ctx=ast.Store())], value=call, lineno=st.lineno)
+                ast.copy_location(asg, st)
+                self._replace(st, call, ast.copy_location(ast.Name(id=nm, ctx=ast.Load()), call))
+                self._replace_stmt(new, st, [asg, st])
+                return True
+        return False
 
     def _inline_round(self, mod, new: ast.FunctionDef, orig: ast.FunctionDef) -> bool:
         changed = False
@@ -547,7 +608,18 @@ class Canonicalizer:
                     continue
                 n_loads = sum(1 for n in _walk_no_nested(new) if isinstance(n, ast.Name) and n.id == x and isinstance(n.ctx, ast.Load))
                 single_use_literal = n_loads == 1 and isinstance(st.value, (ast.List, ast.Dict, ast.Set, ast.Tuple)) and self._pure_literal(st.value)
-                if (self._pure(st.value) or single_use_literal) and self._stable(st.value, st, stores, params, new):
+                single_use_call = False
+                if n_loads == 1 and isinstance(st.value, ast.Call) and not any(isinstance(n, (ast.Yield, ast.YieldFrom, ast.Await, ast.NamedExpr)) for n in ast.walk(st.value)):
+                    blk = getattr(st._parent, "body", None)
+                    for lst in (getattr(st._parent, "body", None), getattr(st._parent, "orelse", None), getattr(st._parent, "finalbody", None)):
+                        if isinstance(lst, list) and st in lst:
+                            i = lst.index(st)
+                            if i + 1 < len(lst):
+                                nxt = lst[i + 1]
+                                if isinstance(nxt, (ast.Assign, ast.Return, ast.Expr, ast.AugAssign)) and \
+                                        any(isinstance(n, ast.Name) and n.id == x and isinstance(n.ctx, ast.Load) for n in ast.walk(nxt)):
+                                    single_use_call = True
+                if (self._pure(st.value) or single_use_literal or single_use_call) and self._stable(st.value, st, stores, params, new):
                     cands.append((x, st))
         if not cands:
             return False
